@@ -28,6 +28,18 @@ def hsOp (args : List String) : String :=
 def negotiateDispatch (toks : List String) : Option String :=
   match toks with
   | "hs" :: rest => some (hsOp rest)
+  | "hspol" :: rest =>
+    -- second connection under another ClientAuth policy (same client, same ticket keys): the verdict is that of a
+    -- first connection under that policy
+    match rest with
+    | [mode, client, cs, ss, pref, _auth, cc, src, tick, scert, pay, auth2] =>
+      let v := hsOp [mode, client, cs, ss, pref, auth2, cc, src, tick, scert, pay]
+      -- under a policy that does not require a client certificate the number of peer certificates is not compared
+      -- (a resumed session may legitimately carry none)
+      some (match v.splitOn " " with
+        | ["ok", a, b, _] => if auth2 = "0" ∨ auth2 = "1" ∨ auth2 = "3" then s!"ok {a} {b} *" else v
+        | _ => v)
+    | _ => some "bad-op"
   | _ => none
 
 end Driver
